@@ -949,6 +949,9 @@ def run_reuse(block, ctx):
 NEAR_SCALES = [{"E": 1e-6, "A": 1e-9, "F": 1e-12}, {"E": 4e-3, "A": 1e-4, "F": 1e-6}, {"E": 0.3, "A": 0.3, "F": 1e-3}]
 
 
+FAR_SCALE = {"E": 4321.0, "A": 77.7, "F": 0.37}
+
+
 def perturb(tag, scale, sign):
     if isinstance(tag, tuple) and tag and tag[0] == "E":
         return ("E", tag[1] + sign * scale["E"])
@@ -973,6 +976,9 @@ def check_near(case):
     for si, scale in enumerate(NEAR_SCALES):
         for sign in (1.0, -1.0):
             near = [perturb(t, scale, sign) for t in base]
+            # a call with far-away arguments first, so that whatever an earlier iteration left behind
+            # is displaced before the (near, base) pair under test
+            do_call(name, spec, [perturb(t, FAR_SCALE, 1.0) for t in base], None)
             do_call(name, spec, near, None)
             got = result_of(name, spec, {})
             if ref is not None and got != ref:
